@@ -55,11 +55,23 @@ structure Delay where
 
 /-- `delay.For(d)` evaluated when the clock shows `now` (built with `time.Now().UTC()`: zone 0) -/
 def Delay.for (now d : Int) : Delay := ⟨now + d, d, 0⟩
-/-- `delay.Until(t)` evaluated when the clock shows `now`, `t` in UTC (no saturation: |t - now| < 2^63 ns) -/
-def Delay.until (now t : Int) : Delay := ⟨t, t - now, 0⟩
+/-- `time.Duration` is an int64 of nanoseconds (about ±292 years) -/
+def maxDur : Int := 9223372036854775807
+def minDur : Int := -9223372036854775808
+
+/-- `Time.Sub` SATURATES: a difference that does not fit a `time.Duration` becomes the largest / smallest duration -/
+def satDur (x : Int) : Int := if x > maxDur then maxDur else if x < minDur then minDur else x
+
+/-- int64 arithmetic wraps (seeded change round 5, C20/1: `time.Duration(t.UnixNano() - now.UnixNano())`) -/
+def wrap64 (x : Int) : Int := (x + 9223372036854775808) % 18446744073709551616 - 9223372036854775808
+
+/-- `delay.Until(t)` evaluated when the clock shows `now`, `t` in UTC: the time is `t` itself, the duration
+    `t.Sub(now)` – exact within ±292 years, saturated beyond (sentinel dates such as 2400-01-01, 9999-12-31, the
+    zero time) -/
+def Delay.until (now t : Int) : Delay := ⟨t, satDur (t - now), 0⟩
 /-- `delay.Until(t)` with `t` carrying a location `zone` seconds east of UTC (`time.Now()` in a non-UTC process, a
     parsed `…+02:00`, `t.In(loc)`): the same instant, the same duration -/
-def Delay.untilIn (now t zone : Int) : Delay := ⟨t, t - now, zone⟩
+def Delay.untilIn (now t zone : Int) : Delay := ⟨t, satDur (t - now), zone⟩
 /-- unix second of the zero `time.Time` (0001-01-01T00:00:00Z) -/
 def zeroTimeSec : Int := -62135596800
 /-- the zero value `delay.Delay{}` -/
